@@ -18,7 +18,16 @@ NAME_STYLES = [
     lambda n: [str(10 - i) for i in range(n)],          # "10" < "9" as strings: sorted order differs from numeric
     lambda n: ["node_%s" % c for c in "zyxwvutsrq"][:n],
     lambda n: ["a b", "a.b", "Z", "z", "_", "é", "0", "~", "a", "B"][:n],
+    lambda n: ["a", "ab", "bc", "c", "b", "abc", "ca", "1", "12", "2"][:n],     # prefix-related names: different sets of names can concatenate to the same string
 ]
+def confusable_sets(names, maxsize=3):
+    """groups of different vertex-id sets whose sorted names concatenate to the same string (keys built by joining names confuse them)"""
+    import itertools
+    byk = {}
+    for k in range(1, maxsize + 1):
+        for S in itertools.combinations(range(len(names)), k):
+            byk.setdefault("".join(sorted(names[i] for i in S)), []).append(list(S))
+    return [v for v in byk.values() if len(v) > 1]
 
 def mk_graph(n, edges, rng=None, style=None):
     """edges: list of (i, j, k) with i != j over ids 0..n-1 (ids are positions in sorted-name order)."""
@@ -163,7 +172,11 @@ def _build_impl_graph(G, rng=None):
     import warnings
     with warnings.catch_warnings():
         warnings.simplefilter("ignore")
-        g = CFGraph(set(names), edges)
+        vs = set()
+        order = list(names)
+        if rng is not None: rng.shuffle(order)     # same set, other insertion order: with colliding hashes the set (hence every dict built from it) iterates differently
+        for nm in order: vs.add(nm)
+        g = CFGraph(vs, edges)
         for a, b, k in later:
             if rng.random() < 0.5: g.add_edge(b, a, k)
             else: g.add_edges([(a, b, k)])
